@@ -396,6 +396,18 @@ def same(a, b):
     return norm(a) == norm(b)
 
 
+def same_any(prog, a, b, depth=2):
+    """a and b denote the same value: identical as written, or identical in some pair of their
+    inlining forms (one side may name a helper's result, the other spell the helper out)"""
+    if a is None or b is None:
+        return False
+    if norm(a) == norm(b):
+        return True
+    from engine.analysis import forms
+    fb = [norm(f) for f in forms(prog, b, depth)]
+    return any(norm(f) in fb for f in forms(prog, a, depth))
+
+
 def funds_coin(prog, t, denom_path=("protocol_chain_config", "ibc_token_denom")):
     """t = info.funds.iter().find(|c| c.denom == CONFIG.<denom_path>).unwrap()  (the coin of that denom sent along)."""
     if t[0] != "payload":
@@ -507,9 +519,22 @@ def ibc_denom(prog, t):
     return t is not None and loaded_field(prog, t, "config", ["protocol_chain_config", "ibc_token_denom"], "staking")
 
 
-def recipient_term(prog, t):
-    """mint_to.unwrap_or(info.sender): Option::unwrap_or_else(msg.mint_to, || info.sender) or unwrap_or."""
-    if t is None or t[0] != "call":
+def recipient_term(prog, t, _again=True):
+    """mint_to.unwrap_or(info.sender): Option::unwrap_or_else(msg.mint_to, || info.sender), unwrap_or,
+    or the match spelling (a merge of Some-payload of mint_to and info.sender); possibly handed
+    through a local helper."""
+    if t is None:
+        return False
+    if t[0] == "phi":
+        alts = t[1]
+        return len(alts) == 2 and any(is_sender(a) for a in alts) and any(a[0] == "payload" and _is_msg_field(a[1], "mint_to") for a in alts)
+    if _again and (t[0] == "payload" or (t[0] == "field" and t[1][0] in ("payload", "variant"))):
+        from engine.analysis import forms
+        for f in forms(prog, t, 3):
+            if f != t and recipient_term(prog, f, False):
+                return True
+        return False
+    if t[0] != "call":
         return False
     if t[1] == "std::option::Option::unwrap_or_else":
         res = closure_result(prog, t[2][1])
